@@ -4,7 +4,7 @@
    with Path.list_of_destinations_from_last_segment and Path.make_copy_with_jump_to,
    variant = ScoreVariant.create_variant_part, id_suffix = update_note_ids_after_unfolding,
    variant_qd = the quarter durations create_variant_part sets. *)
-From PV Require Import Lib.Base Model.C09 Model.C09_api Proofs.C09 Proofs.C09_simple Proofs.C09_segs Proofs.C09_variant Proofs.C09_clip Proofs.C09_qd Proofs.C09_nav Proofs.C09_api Proofs.C09_reps.
+From PV Require Import Lib.Base Model.C09 Model.C09_api Proofs.C09 Proofs.C09_simple Proofs.C09_segs Proofs.C09_variant Proofs.C09_clip Proofs.C09_qd Proofs.C09_nav Proofs.C09_api Proofs.C09_reps Model.C09_hist Proofs.C09_hist.
 From Coq Require Import ZArith List Bool.
 Import ListNotations.
 #[local] Open Scope Z_scope.
@@ -313,3 +313,73 @@ Theorem simple_repeats_unbounded : forall first last reps ign fuel,
   get_paths fuel g true false ign = Some [minsfx 0 bs].
 Proof. exact simple_repeats_unbounded_lemma. Qed.
 Print Assumptions simple_repeats_unbounded.
+
+(* ---- state carried between calls (Model/C09_hist.v: the marks of the part now + the Segment objects
+   registered by add_segments).  For EVERY history of changes of the marks (by Part.add / Part.remove, by
+   TimePoint methods, by assigning Ending.number in place), add_segments / removal of the registered
+   segments, and calls of the entry points -- within the documented use: a part with registered segments is
+   refreshed (add_segments force_new=True) or loses them right after a change of its marks -- every call
+   sees the segments of the marks the part has AT THAT MOMENT, and so does a call after the history ---- *)
+Theorem history_reads_current_marks : forall m0 h,
+  disciplined false h = true ->
+  observed (mkPst m0 []) h = current (mkPst m0 []) h /\
+  cur_segments (run (mkPst m0 []) h) = make_segments (p_marks (run (mkPst m0 []) h)).
+Proof. exact history_reads_current_marks_lemma. Qed.
+Print Assumptions history_reads_current_marks.
+
+(* without add_segments there is nothing to keep in order: any history whatsoever *)
+Theorem unregistered_history_reads_current_marks : forall m0 h,
+  no_registration h = true ->
+  observed (mkPst m0 []) h = current (mkPst m0 []) h.
+Proof. exact unregistered_history_lemma. Qed.
+Print Assumptions unregistered_history_reads_current_marks.
+
+(* ... hence every entry point gives, after the history, what it gives on a freshly built part with the
+   same marks (and the same objects) *)
+Theorem history_entry_points_as_fresh : forall m0 h,
+  disciplined false h = true ->
+  let s := run (mkPst m0 []) h in
+  (forall nr ar ign, obs_paths s nr ar ign = obs_paths (fresh s) nr ar ign) /\
+  (forall objs ign, obs_maximal s objs ign = obs_maximal (fresh s) objs ign) /\
+  (forall objs, obs_minimal s objs = obs_minimal (fresh s) objs) /\
+  (forall objs, obs_iter s objs = obs_iter (fresh s) objs) /\
+  (forall objs want, obs_alignment s objs want = obs_alignment (fresh s) objs want).
+Proof. exact history_entry_points_lemma. Qed.
+Print Assumptions history_entry_points_as_fresh.
+
+(* not vacuous: a variant that keeps the segments made on the fly until Part.add / Part.remove plays
+   |: m1 m2 [1. m3 :| [2. m4 | m5 with two passes after the brackets were renumbered "1, 2" / "3" in place
+   (A-B-A-C-D instead of A-B-A-B-A-C-D), and is right when the change goes through Part.add / Part.remove *)
+Theorem memoising_variant_refuted :
+  disciplined false (ex_hist false) = true /\
+  get_paths FUEL (second (observed (mkPst ex_m1 []) (ex_hist false))) false true true = Some [[0; 1; 0; 1; 0; 2; 3]] /\
+  second (observed (mkPst ex_m1 []) (ex_hist false)) = second (current (mkPst ex_m1 []) (ex_hist false)) /\
+  get_paths FUEL (second (memo_observed (mkMst ex_m1 None) (ex_hist false))) false true true = Some [[0; 1; 0; 2; 3]] /\
+  list_eqb seg_eqb (second (memo_observed (mkMst ex_m1 None) (ex_hist false)))
+                   (second (current (mkPst ex_m1 []) (ex_hist false))) = false /\
+  memo_observed (mkMst ex_m1 None) (ex_hist true) = current (mkPst ex_m1 []) (ex_hist true).
+Proof. exact memoising_variant_refuted_lemma. Qed.
+Print Assumptions memoising_variant_refuted.
+
+(* the hypothesis cannot be dropped: registered segments are not refreshed by a change of the marks
+   (documented: add_segments force_new), they are after add_segments(part, force_new=True) *)
+Theorem discipline_needed :
+  let h := [OAddSegments false; OCall; OEdit true ex_m2; OCall] in
+  disciplined false h = false /\
+  get_paths FUEL (second (observed (mkPst ex_m1 []) h)) false true true = Some [[0; 1; 0; 2; 3]] /\
+  get_paths FUEL (second (current (mkPst ex_m1 []) h)) false true true = Some [[0; 1; 0; 1; 0; 2; 3]] /\
+  let h' := [OAddSegments false; OCall; OEdit true ex_m2; OAddSegments true; OCall] in
+  disciplined false h' = true /\
+  get_paths FUEL (second (observed (mkPst ex_m1 []) h')) false true true = Some [[0; 1; 0; 1; 0; 2; 3]].
+Proof. exact discipline_needed_lemma. Qed.
+Print Assumptions discipline_needed.
+
+(* the exact boundary of known finding C09-K3 in the model: To Coda directly after a volta group whose last
+   bracket is repeated ("2, 3" with a repeat sign): A-B-A-C-A-B-A-C-E instead of A-B-A-C-A-C-D-E; one measure
+   later the reading is the notated one *)
+Theorem tocoda_after_repeated_last_bracket_refuted :
+  get_paths FUEL (make_segments ex_k3) false true true = Some [[0; 1; 0; 2; 0; 1; 0; 2; 4]] /\
+  get_paths FUEL (make_segments (mkMarks 0 32 [(0, 12); (0, 16)] [(8, 12, [1]); (12, 16, [2; 3])] [24] [20] [24] [] [] []))
+            false true true = Some [[0; 1; 0; 2; 0; 2; 3; 4; 5]].
+Proof. exact tocoda_after_repeated_last_bracket_refuted_lemma. Qed.
+Print Assumptions tocoda_after_repeated_last_bracket_refuted.
